@@ -55,6 +55,7 @@ PROP = dict(
         R("common", "A", "./c10", "TestC10Common", (50000, 4), (500000, 16)),
         R("classof", "A", "./c10", "TestC10ClassOf", (100000, 2), (400000, 16)),
         R("noop", "A", "./c10", "TestC10NoOp", (80000, 2), (400000, 16)),
+        R("rowscaler", "B", "./cmd/benchstat", "TestC10RowScaler", (20000, 2), (300000, 8)),
         F("fuzz", "./c10", "FuzzC10", 60),
     ],
 )
